@@ -6,7 +6,7 @@ from concurrent.futures import ThreadPoolExecutor
 from harness import procs
 from lib import monitor, recipe
 
-PROPS = ['ExitcodeFaithful', 'AliveFaithful', 'JoinWithinTimeout', 'JoinReturnsWhenEnded',
+PROPS = ['ObservationsAnswer', 'ExitcodeFaithful', 'AliveFaithful', 'JoinWithinTimeout', 'JoinReturnsWhenEnded',
          'NotActiveAfterJoin', 'StartOnce', 'StartOnlyByCreator']
 SIGS_Q = [signal.SIGTERM, signal.SIGKILL, signal.SIGSEGV, signal.SIGINT, signal.SIGUSR1]
 SIGS_T = SIGS_Q + [signal.SIGHUP, signal.SIGQUIT, signal.SIGABRT, signal.SIGBUS, signal.SIGFPE,
